@@ -487,5 +487,18 @@ def run(ctx):
             else:
                 ctx.ok("R05.9", cname, "allocation does not take its dtype from the moments", fq.loc(c))
     ctx.require_count("R05.9", 3)
+    # ---- R05.3 (order) the moments are flattened to (points, frequency) and the result is unflattened again: both reshapes must read
+    # memory in the same order, whatever the layout of the caller's arrays (order="A"/"F"/"K" on one side follows the input's strides)
+    fe_ = p.get_function(EST + "estimate.estimate_directional_distribution")
+    orders = []
+    for c in [n for n in own_walk(fe_.node) if isinstance(n, ast.Call) and isinstance(n.func, ast.Attribute) and n.func.attr == "reshape"
+              or isinstance(n, ast.Call) and ast.unparse(n.func) in ("np.reshape", "numpy.reshape")]:
+        od = [k.value for k in c.keywords if k.arg == "order"]
+        orders.append((od[0].value if od and isinstance(od[0], ast.Constant) else ("?" if od else "C"), c))
+    kinds = {o for o, _ in orders}
+    ctx.expect((kinds <= {"C"} or len(kinds) == 1 and "?" not in kinds and kinds <= {"C", "F"}) if orders else None, "R05.3",
+               "estimate_directional_distribution[reshape order]",
+               "every reshape between the caller's layout and the (points, frequency) layout uses one fixed memory order", fe_.loc(),
+               derived=str(sorted(kinds)), required="one of C / F throughout (not A or K, which depend on the input's strides)")
     ctx.require_count("R05.5", 5)
     ctx.require_count("R05.6", 5)
